@@ -133,8 +133,16 @@ def main():
         # key followed by "_" occurs inside it (DF011_ in IDF011_01, PRN_ in CELLPRN_03, ...)
         import re as _re
         short = {nm: key for nm, key in names.items() if len(nm) < 64}
-        base = {nm: (p.datadesc(nm) if True else None, p.att2idx(nm), p.att2name(nm)) for nm in sorted(short)}
+        def safe3(nm):
+            try:
+                return (p.datadesc(nm), p.att2idx(nm), p.att2name(nm))
+            except Exception as e:  # noqa
+                return (repr(e), None, None)
+        base = {nm: safe3(nm) for nm in sorted(short)}
         wrong = {nm for nm in short if base[nm][0] != tabs.DF[short[nm]][3]}
+        for nm in sorted(wrong)[:3]:
+            em.violation("C19: datadesc(%r) = %r, expected the description of %s (asked in sorted order after the other names)" % (nm, base[nm][0], short[nm]),
+                         {"name": nm, "order": "sorted", "asked_before": None}, {})
 
         def ask(order, what):
             for prev, nm in zip([None] + order[:-1], order):
@@ -203,10 +211,13 @@ def main():
             b = gen.build(tabs, "4076_201", rng, maxcount=rng.choice([1, 2, 3]))
             if b is not None and len(b.payload) <= 1023:
                 pays.append((b.ident, b.payload))
-        # a 4076_201 with > 99 coefficients per layer (three-digit indices)
-        b = gen.build(tabs, "4076_201", rng, force_counts={"IDF035": 0, "IDF037": 13, "IDF038": 13})
-        if b is not None and len(b.payload) <= 1023:
-            pays.append((b.ident, b.payload))
+        # a 4076_201 with > 99 coefficients per layer (three-digit indices), and the degree / order fields at and near their 4-bit
+        # maximum (up to 153 cosine and 136 sine coefficients in one layer)
+        for deg, ordr in ((13, 13), (15, 15), (15, 10), (15, 9), (14, 14), (15, 0)):
+            b = gen.build(tabs, "4076_201", rng, force_counts={"IDF035": 0, "IDF037": deg, "IDF038": ordr})
+            if b is not None and len(b.payload) <= 1023:
+                pays.append((b.ident, b.payload))
+                em.count("4076_201.degree%d" % deg)
         others = rng.sample([k for k in tabs.ALL if k not in tabs.M and k != "4076_201"], 30 if thorough else 12)
         for ident in others:
             b = gen.build(tabs, ident, rng, maxcount=2)
